@@ -732,7 +732,6 @@ lp_upolynomial_factors_t* upolynomial_factor_Zp(const lp_upolynomial_t* f) {
   const lp_int_ring_t* K = f->K;
 
   assert(K && K->is_prime);
-  assert(lp_upolynomial_degree(f) > 0);
 
   // Our result factorization
   lp_upolynomial_factors_t* result = lp_upolynomial_factors_construct();
